@@ -19,9 +19,29 @@ type fetchAnchors struct {
 	req      *ssa.Parameter // *FetchNodeCredentialsRequest
 	validate *ssa.Call      // request-validation call
 	R        ssa.Value      // validated *FetchNodeCredentialsInfo
-	encrypts []*ssa.Call    // EncryptMessage calls
-	K        ssa.Value      // key source of EncryptMessage (node record)
+	encrypts []*ssa.Call    // EncryptMessage calls (in fn or the helpers it was split into)
+	K        ssa.Value      // key source of EncryptMessage (node record), as a value of fn
 	credRets []*ssa.Return  // returns carrying a non-empty response
+	encSites []core.DeepSite // the EncryptMessage calls with their call chains
+	retSites []core.DeepSite // the returns that build the non-empty response, with their call chains
+}
+
+// isTokenValidator: a helper that takes the activation-token nonce (an anchor of its own).
+func isTokenValidator(h *ssa.Function) bool {
+	return paramOfType(h, typesPkg, "ServerLedActivationTokenNonce") != nil || helperOK(h) && false
+}
+
+// stopAtAnchors: helpers that rules anchor in are not looked into when a function's split is searched.
+func stopAtAnchors(h *ssa.Function) bool {
+	return isTokenValidator(h) || (theAuthHelper != nil && h == theAuthHelper)
+}
+
+// theAuthHelper is set by resolveFetch.
+var theAuthHelper *ssa.Function
+
+// callsStore: (*NodeInformation).Store is called by h or a part it was split into (the authorisation helper).
+func callsStore(h *ssa.Function) bool {
+	return len(core.SplitCalls(h, nil, "(*"+typesPkg+".NodeInformation).Store")) > 0
 }
 
 // validatorCall finds the call in fn that validates the fetch request: a
@@ -82,6 +102,7 @@ func resolveFetch(c *Ctx, rule string) *fetchAnchors {
 		return nil
 	}
 	a := &fetchAnchors{fn: fn}
+	theAuthHelper = authHelper(c, rule)
 	a.req = paramOfType(fn, typesPkg, "FetchNodeCredentialsRequest")
 	if a.req == nil {
 		r.Unk(rule, "registration.FetchNodeCredentials request parameter", p.Pos(fn.Pos()), "no *FetchNodeCredentialsRequest parameter")
@@ -94,27 +115,56 @@ func resolveFetch(c *Ctx, rule string) *fetchAnchors {
 	}
 	r.Fn(core.FuncName(a.validate.Common().StaticCallee()))
 	a.R = extractOf(a.validate, 0)
-	a.encrypts = callsNamed(fn, mod+".EncryptMessage")
+	a.encSites = core.SplitCalls(fn, stopAtAnchors, mod+".EncryptMessage")
+	for _, site := range a.encSites {
+		a.encrypts = append(a.encrypts, site.Instr.(*ssa.Call))
+		if len(site.Chain) > 0 {
+			r.Fn(core.FuncName(site.Fn))
+		}
+	}
 	if len(a.encrypts) == 0 || a.R == nil {
 		r.Unk(rule, "registration.FetchNodeCredentials EncryptMessage call", p.Pos(fn.Pos()), "no EncryptMessage call / validated info value found")
 		return nil
 	}
-	for _, e := range a.encrypts {
-		k := core.Strip(e.Call.Args[2])
-		if a.K == nil {
-			a.K = k
-		} else if a.K != k {
-			r.Unk(rule, "registration.FetchNodeCredentials key source", p.Pos(e.Pos()), "EncryptMessage calls use different key sources; rule supports one record")
-			return nil
+	bad := false
+	for _, site := range a.encSites {
+		e := site.Instr.(*ssa.Call)
+		site.In(func() {
+			k := core.Strip(e.Call.Args[2])
+			// the record as a value of fn (a helper parameter stands for the argument)
+			if kp := core.PathOf(k); len(kp.Fields) == 0 {
+				k = kp.Root
+			}
+			if a.K == nil {
+				a.K = k
+			} else if a.K != k {
+				bad = true
+			}
+		})
+	}
+	if bad {
+		r.Unk(rule, "registration.FetchNodeCredentials key source", p.Pos(fn.Pos()), "EncryptMessage calls use different key sources; rule supports one record")
+		return nil
+	}
+	// returns that build a non-empty response: in fn, or in the helper whose result fn returns
+	var collect func(f *ssa.Function, chain []ssa.CallInstruction, depth int)
+	collect = func(f *ssa.Function, chain []ssa.CallInstruction, depth int) {
+		for _, ret := range core.SuccessReturns(f) {
+			v := ret.Results[0]
+			if core.IsNilConst(v) || freshAllocNoStores(v) {
+				continue
+			}
+			if call, idx := core.CallResult(core.Strip(v)); call != nil && idx == 0 && depth < core.InterDepth {
+				if h := core.ModuleCallee(call.Common()); h != nil && h != f && !stopAtAnchors(h) && namedType(h.Signature.Results().At(0).Type(), typesPkg, "FetchNodeCredentialsResponse") {
+					collect(h, append(append([]ssa.CallInstruction{}, chain...), call), depth+1)
+					continue
+				}
+			}
+			a.credRets = append(a.credRets, ret)
+			a.retSites = append(a.retSites, core.DeepSite{Instr: ret, Fn: f, Chain: chain})
 		}
 	}
-	for _, ret := range core.SuccessReturns(fn) {
-		v := ret.Results[0]
-		if core.IsNilConst(v) || freshAllocNoStores(v) {
-			continue
-		}
-		a.credRets = append(a.credRets, ret)
-	}
+	collect(fn, nil, 0)
 	if len(a.credRets) == 0 {
 		r.Unk(rule, "registration.FetchNodeCredentials credential return", p.Pos(fn.Pos()), "no return carrying a non-empty response found")
 		return nil
@@ -173,19 +223,18 @@ func c01(c *Ctx) {
 	cg := core.BuildCallGraph(p)
 	gLen := core.LenEquals("R.Nonce==NonceSize", core.FieldOf(R, "Nonce"), 32)
 	found := false
-	for _, b := range fn.Blocks {
-		ifi, ok := b.Instrs[len(b.Instrs)-1].(*ssa.If)
-		if !ok {
-			continue
-		}
-		s, m := core.MatchCond(gLen, ifi.Cond, nil)
+	for _, site := range core.SplitFind(fn, stopAtAnchors, func(in ssa.Instruction) bool { _, ok := in.(*ssa.If); return ok }) {
+		ifi := site.Instr.(*ssa.If)
+		b := ifi.Block()
+		s, m := 0, false
+		site.In(func() { s, m = core.MatchCond(gLen, ifi.Cond, nil) })
 		if !m {
 			continue
 		}
 		found = true
 		head := b.Succs[s]
 		var bad []string
-		for _, x := range fn.Blocks {
+		for _, x := range site.Fn.Blocks {
 			if !head.Dominates(x) {
 				continue
 			}
@@ -199,7 +248,7 @@ func c01(c *Ctx) {
 					}
 				}
 				if ret, ok := in.(*ssa.Return); ok && core.ReturnErrKind(ret, 1) != core.ErrNonNil {
-					if !core.IsNilConst(ret.Results[0]) && !freshAllocNoStores(ret.Results[0]) {
+					if namedType(ret.Results[0].Type(), typesPkg, "FetchNodeCredentialsResponse") && !core.IsNilConst(ret.Results[0]) && !freshAllocNoStores(ret.Results[0]) {
 						bad = append(bad, p.Pos(ret.Pos())+" success return of a non-empty response inside the node-led branch")
 					}
 				}
@@ -216,26 +265,40 @@ func c01(c *Ctx) {
 	// R-C01.5 who may create node records
 	store := c.need("R-C01.5", "types", "(*NodeInformation).Store")
 	if store != nil {
-		var helper *ssa.Function
+		helper := authHelper(c, "R-C01.5")
 		callers := cg.Callers[store]
+		var hparts map[*ssa.Function]bool
+		if helper != nil {
+			hparts = splitFuncs(helper, nil)
+		}
 		for _, cal := range callers {
 			nm := core.FuncName(cal)
-			if helperOK(cal) && paramOfType(cal, typesPkg, "FetchNodeCredentialsInfo") != nil && helper == nil {
-				helper = cal
-				r.OK("R-C01.5", "caller of (*NodeInformation).Store: "+nm, p.Pos(cal.Pos()), "the authorisation helper")
+			if helper != nil && (cal == helper || hparts[cal]) {
+				r.OK("R-C01.5", "caller of (*NodeInformation).Store: "+nm, p.Pos(cal.Pos()), "the authorisation helper (or a part it was split into)")
 			} else {
 				r.Bad("R-C01.5", "caller of (*NodeInformation).Store: "+nm, p.Pos(cal.Pos()), "node records may only be written by the authorisation helper")
 			}
 		}
-		if helper == nil {
-			r.Unk("R-C01.5", "authorisation helper", "", "no authorisation helper calling (*NodeInformation).Store found")
-		} else {
+		if helper != nil {
 			r.Fn(core.FuncName(helper))
-			allowed := map[string]bool{"registration.AuthorizeNode": true, "registration.FetchNodeCredentials": true}
+			// reviewed callers: the two entry points, the token validator, and the parts they were split into
+			allowedFn := map[*ssa.Function]bool{}
+			for _, mf := range p.ModuleFuncs() {
+				nm := core.FuncName(mf)
+				isValidator := helperOK(mf) && paramOfType(mf, typesPkg, "ServerLedActivationTokenNonce") != nil
+				if nm == "registration.AuthorizeNode" || nm == "registration.FetchNodeCredentials" || isValidator {
+					allowedFn[mf] = true
+					for part := range splitFuncs(mf, nil) {
+						allowedFn[part] = true
+					}
+				}
+			}
 			for _, cal := range cg.Callers[helper] {
 				nm := core.FuncName(cal)
-				isValidator := helperOK(cal) && paramOfType(cal, typesPkg, "ServerLedActivationTokenNonce") != nil
-				r.Check(allowed[nm] || isValidator, "R-C01.5", "caller of authorisation helper: "+nm, p.Pos(cal.Pos()),
+				if hparts[cal] {
+					continue
+				}
+				r.Check(allowedFn[cal], "R-C01.5", "caller of authorisation helper: "+nm, p.Pos(cal.Pos()),
 					"reviewed caller (guards checked by R-C01.3 / R-C01.6 / C06)", "unreviewed caller of the authorisation helper: its guards are not checked by any rule")
 			}
 		}
@@ -258,20 +321,12 @@ func c01Wrapped(c *Ctx, a *fetchAnchors, gValid core.Guard) {
 	fn, R := a.fn, a.R
 	// authorising calls in fn: callee (…*FetchNodeCredentialsInfo…) (*NodeInformation, error) without a token parameter
 	var authCalls []*ssa.Call
-	for _, ci := range core.AllCalls(fn) {
-		call, ok := ci.(*ssa.Call)
-		if !ok {
-			continue
-		}
-		cal := call.Common().StaticCallee()
-		if cal == nil || !core.InModule(cal) {
-			continue
-		}
-		res := cal.Signature.Results()
-		if res.Len() == 2 && namedType(res.At(0).Type(), typesPkg, "NodeInformation") &&
-			paramOfType(cal, typesPkg, "FetchNodeCredentialsInfo") != nil && paramOfType(cal, typesPkg, "ServerLedActivationTokenNonce") == nil {
-			authCalls = append(authCalls, call)
-		}
+	ah := authHelper(c, "R-C01.3")
+	for _, site := range core.SplitFind(fn, func(h *ssa.Function) bool { return isTokenValidator(h) || h == ah }, func(in ssa.Instruction) bool {
+		call, ok := in.(*ssa.Call)
+		return ok && ah != nil && call.Common().StaticCallee() == ah
+	}) {
+		authCalls = append(authCalls, site.Instr.(*ssa.Call))
 	}
 	if len(authCalls) == 0 {
 		r.Unk("R-C01.3", "registration.FetchNodeCredentials authorising call", p.Pos(fn.Pos()), "no direct call to the authorisation helper found in the wrapped-registration branch")
@@ -281,11 +336,13 @@ func c01Wrapped(c *Ctx, a *fetchAnchors, gValid core.Guard) {
 		return pth.HasFields(field) && pth.Root != R && namedType(pth.Root.Type(), typesPkg, "WrappingRegistrationFlowInfo")
 	}
 	// collect info roots used in the comparisons
-	infoRoots := map[ssa.Value]bool{}
+	infoRoots := map[ssa.Value]map[ssa.Value]ssa.Value{} // root -> the frame substitution it was seen under
 	mkEq := func(field string) core.Guard {
 		return core.BytesEq("info."+field+", R."+field, func(pp core.Path) bool {
 			if isInfo(pp, field) {
-				infoRoots[pp.Root] = true
+				if _, have := infoRoots[pp.Root]; !have {
+					infoRoots[pp.Root] = core.SubstSnapshot()
+				}
 				return true
 			}
 			return false
@@ -306,40 +363,52 @@ func c01Wrapped(c *Ctx, a *fetchAnchors, gValid core.Guard) {
 	}
 	sort.Slice(roots, func(i, j int) bool { return roots[i].Pos() < roots[j].Pos() })
 	for _, root := range roots {
-		for _, src := range flattenPhi(root) {
+		core.WithSubst(infoRoots[root], func() {
+		eachSource(root, func(src ssa.Value) {
 			construct := fmt.Sprintf("registration.FetchNodeCredentials registration-info source#%d", n)
 			n++
 			if core.IsNilConst(src) {
 				r.OK("R-C01.3", construct+" nil", p.Pos(fn.Pos()), "nil initial value")
-				continue
+				return
 			}
 			if call, idx := core.CallResult(src); call != nil && idx == 0 &&
 				core.CalleeName(call.Common()) == mod+"/registration.DecryptWrappedRegistrationInfo" {
 				passesR := len(call.Call.Args) > 1 && core.Strip(call.Call.Args[1]) == R
 				r.Check(passesR, "R-C01.3", construct+" DecryptWrappedRegistrationInfo", p.Pos(call.Pos()),
 					"info unsealed with the server's registration wrapper from the validated request info", "DecryptWrappedRegistrationInfo is not given the validated request info")
-				continue
+				return
 			}
 			if al, ok := src.(*ssa.Alloc); ok {
 				// must be the result argument of DecryptMessage whose key source is a loaded record
 				good, why := false, "allocation is never filled by DecryptMessage"
-				for _, dm := range callsNamed(fn, mod+".DecryptMessage") {
+				for _, dsite := range core.SplitCalls(fn, stopAtAnchors, mod+".DecryptMessage") {
+					dm := dsite.Instr.(*ssa.Call)
+					dsite.In(func() {
 					if len(dm.Call.Args) >= 4 && core.Strip(dm.Call.Args[3]) == al {
-						ks := core.Strip(dm.Call.Args[2])
-						kc, ki := core.CallResult(ks)
+						loaded := true
+						nk := 0
+						eachSource(dm.Call.Args[2], func(ks ssa.Value) {
+							nk++
+							kc, ki := core.CallResult(ks)
+							if !(kc != nil && ki == 0 && core.CalleeName(kc.Common()) == typesPkg+".LoadNodeInformation") {
+								loaded = false
+							}
+						}, typesPkg+".LoadNodeInformation")
 						ct := core.PathOf(dm.Call.Args[1])
-						if kc != nil && ki == 0 && core.CalleeName(kc.Common()) == typesPkg+".LoadNodeInformation" && ct.Root == a.req {
+						if loaded && nk > 0 && ct.Root == ssa.Value(a.req) {
 							good, why = true, "filled by DecryptMessage(req."+ct.Last()+") under a record loaded from storage"
 						} else {
 							why = "DecryptMessage key source is not a record loaded from storage or ciphertext is not a request field"
 						}
 					}
+					})
 				}
 				r.Check(good, "R-C01.3", construct+" DecryptMessage result", p.Pos(al.Pos()), why, why)
-				continue
+				return
 			}
 			r.Bad("R-C01.3", construct, p.Pos(src.Pos()), "unreviewed source of registration info: "+core.ValueName(src))
-		}
+		}, mod+"/registration.DecryptWrappedRegistrationInfo")
+		})
 	}
 	if n == 0 {
 		r.Unk("R-C01.3", "registration.FetchNodeCredentials registration-info source", p.Pos(fn.Pos()), "no registration info value compared with the request found")
@@ -536,21 +605,32 @@ func kProvenance(c *Ctx, a *fetchAnchors, rule string) {
 	fn, K, R := a.fn, a.K, a.R
 	// R-C01.2 provenance of K
 	var helperCalls []*ssa.Call
-	for i, src := range flattenPhi(K) {
+	// (a source produced inside a helper the function was split into is followed
+	// into that helper; loads and the authorisation / token helpers are anchors)
+	var anchors []string
+	anchors = append(anchors, typesPkg+".LoadNodeInformation")
+	for _, mf := range p.ModuleFuncs() {
+		if mf == theAuthHelper || (helperOK(mf) && isTokenValidator(mf)) {
+			anchors = append(anchors, mf.String())
+		}
+	}
+	i := -1
+	eachSource(K, func(src ssa.Value) {
+		i++
 		construct := fmt.Sprintf("registration.FetchNodeCredentials K-source#%d", i)
 		if core.IsNilConst(src) {
 			r.OK(rule, construct+" nil", p.Pos(fn.Pos()), "nil initial value (dereferencing it cannot yield credentials)")
-			continue
+			return
 		}
 		call, idx := core.CallResult(src)
 		if call == nil || idx != 0 {
 			r.Bad(rule, construct, p.Pos(src.Pos()), "record used to build the response is not the result of a load or authorisation call: "+core.ValueName(src))
-			continue
+			return
 		}
 		name := core.CalleeName(call.Common())
 		switch {
 		case name == typesPkg+".LoadNodeInformation":
-			idc, i0 := core.CallResult(call.Call.Args[2])
+			idc, i0 := core.CallResult(core.Strip(call.Call.Args[2]))
 			good := false
 			if idc != nil && i0 == 0 && core.CalleeName(idc.Common()) == mod+".KeyIdFromPkix" {
 				ap := core.PathOf(idc.Call.Args[0])
@@ -571,7 +651,7 @@ func kProvenance(c *Ctx, a *fetchAnchors, rule string) {
 		default:
 			r.Bad(rule, construct+" "+shortName(name), p.Pos(call.Pos()), "unreviewed source of the record used to build the response")
 		}
-	}
+	}, anchors...)
 
 	_ = helperCalls
 }
